@@ -516,7 +516,20 @@ func (tr *Tr) invoke(fr *Frame, site ssa.Instruction, c *ssa.CallCommon, rt type
 		w, _, ok := intLeaf(s.Elem())
 		return ok && w == 8
 	}
-	retErr := func() Val { return tr.freshVal(types.Universe.Lookup("error").Type(), "err_"+name) }
+	retErr := func() Val {
+		e := tr.freshVal(types.Universe.Lookup("error").Type(), "err_"+name)
+		// errors coming from the environment cannot contain this module's unexported error types
+		for _, t := range tr.P.errAsTargets() {
+			pt := t
+			if p, ok := pt.Underlying().(*types.Pointer); ok {
+				pt = p.Elem()
+			}
+			if n, ok := pt.(*types.Named); ok && !n.Obj().Exported() {
+				tr.assumeHere(tr.f.Not(tr.errHas(t, e)), "environment errors do not wrap the unexported type "+n.Obj().Name())
+			}
+		}
+		return e
+	}
 	nerr := func(p Val, exact bool) (Val, *Term, Val) {
 		n := f.Fresh("n_"+name, S64)
 		e := retErr()
@@ -576,7 +589,7 @@ func (tr *Tr) invoke(fr *Frame, site ssa.Instruction, c *ssa.CallCommon, rt type
 		r := f.Fresh("seekpos", S64)
 		e := retErr()
 		sz := f.App("devsize", S64, dev)
-		tr.assume(f.SLe(z, sz), "device size is non-negative")
+		tr.assume(f.And(f.SLe(z, sz), f.SLe(sz, f.BVu(64, 1<<60))), "device size is non-negative (and below 1 EiB)")
 		tr.assume(f.Implies(f.Eq(e[0], z), f.And(f.SLe(z, r),
 			f.Implies(f.Eq(args[1][0], f.BVi(64, 2)), f.Eq(r, f.Add(sz, args[0][0]))),
 			f.Implies(f.Eq(args[1][0], f.BVi(64, 0)), f.Eq(r, args[0][0])))), "io.Seeker.Seek")
